@@ -41,7 +41,10 @@ StagePool == IF Pools = "full"
                       [t |-> "linefmt", parts |-> << [t |-> "label", s |-> <<>>, name |-> APP] >>] }
 SelPool == IF Pools # "full" THEN { <<>>, << [label |-> APP, op |-> "eq", val |-> A, re |-> REps] >> } ELSE
            { <<>>, << [label |-> APP, op |-> "eq", val |-> A, re |-> REps] >>, << [label |-> APP, op |-> "neq", val |-> A, re |-> REps] >>,
-             << [label |-> APP, op |-> "re", val |-> ReText(RAlt(RLit(97), REps)), re |-> RAlt(RLit(97), REps)] >> }
+             << [label |-> APP, op |-> "re", val |-> ReText(RAlt(RLit(97), REps)), re |-> RAlt(RLit(97), REps)] >>,
+             \* several matchers on one label with the same operator are a conjunction, not a repetition
+             << [label |-> APP, op |-> "neq", val |-> A, re |-> REps], [label |-> APP, op |-> "neq", val |-> Bb, re |-> REps] >>,
+             << [label |-> APP, op |-> "eq", val |-> A, re |-> REps], [label |-> APP, op |-> "eq", val |-> Bb, re |-> REps] >> }
 Ops == {"eq", "neq", "re", "nre"}
 LabelCaps == IF Pools = "full" THEN {{}, Ops, {"eq"}} ELSE {{}, Ops}
 LineCaps == IF Pools = "full" THEN SUBSET Ops ELSE {{}, Ops, {"eq"}, {"neq", "re"}}
